@@ -155,13 +155,20 @@ Fixpoint do_writes (s : kvs) (ws : list write) (budget : option nat) : kvs * opt
       end
   end.
 
+(* a tenant id handed out by TenantId::generate (uuid v4) has never been used: not in the manager, not in the store *)
+Definition fresh_id (s : kvs) (m : mgr) (id : N) : bool :=
+  negb (mem_N id (load_index s)) &&
+  match kv_get s (KTenant id) with None => true | Some _ => false end &&
+  negb (mem_N id (map t_id m)).
+
 Record world := mkW {
   w_store : kvs;
   w_mem : mgr;                (* the running server's manager *)
   w_acked : mgr;              (* ghost: manager state after the last operation that completed *)
   w_budget : option nat;
   w_frozen : bool;
-  w_trace : list (bool * nat * bool)     (* per operation: accepted, writes done, frozen during it *)
+  w_trace : list (bool * nat * bool);    (* per operation: accepted, writes done, frozen during it *)
+  w_fresh : bool              (* ghost: every create so far used a fresh id *)
 }.
 
 Definition step_op (w : world) (o : op) : world :=
@@ -169,16 +176,17 @@ Definition step_op (w : world) (o : op) : world :=
   else match o with
   | ORestart =>
       let m := recover (w_store w) in
-      mkW (w_store w) m m (w_budget w) false (w_trace w ++ [(true, O, false)])
+      mkW (w_store w) m m (w_budget w) false (w_trace w ++ [(true, O, false)]) (w_fresh w)
   | _ =>
+      let fr_ok := match o with OCreate id _ _ => fresh_id (w_store w) (w_mem w) id | _ => true end in
       match op_effect (w_mem w) o with
-      | None => mkW (w_store w) (w_mem w) (w_acked w) (w_budget w) false (w_trace w ++ [(false, O, false)])
+      | None => mkW (w_store w) (w_mem w) (w_acked w) (w_budget w) false (w_trace w ++ [(false, O, false)]) (w_fresh w)
       | Some (m', ws) =>
           let '(s', b', fr, n) := do_writes (w_store w) ws (w_budget w) in
-          mkW s' m' (if fr then w_acked w else m') b' fr (w_trace w ++ [(true, n, fr)])
+          mkW s' m' (if fr then w_acked w else m') b' fr (w_trace w ++ [(true, n, fr)]) (w_fresh w && fr_ok)
       end
   end.
 
-Definition world0 (budget : option nat) : world := mkW [] [] [] budget false [].
+Definition world0 (budget : option nat) : world := mkW [] [] [] budget false [] true.
 
 Definition run_ops (ops : list op) (budget : option nat) : world := fold_left step_op ops (world0 budget).
